@@ -7,7 +7,7 @@ from vf import refhash as RH
 ID = "C16"
 LEVEL = "exploration"
 ENGINE = "E0 pure"
-TECHNIQUE = "Hypothesis over all cap kinds x prefixes x contexts; oracle = authority table + independent hashlib derivations + secret-leak scan of derived cap strings"
+TECHNIQUE = "Hypothesis over all cap kinds x prefixes x contexts; oracle = authority table + independent hashlib derivations + secret-leak scan of derived cap strings and of the opaque nodes built for contradicting prefixes"
 RULE = ("each case: one cap of a drawn kind (18 kinds, random secrets) and one (prefix in {none, ro., imm.}, deep_immutable in {F,T}, slot in {rw, ro}) "
         "context. Checked: derivation chain write->read->verify (types, storage index, fingerprint/UEB hash vs hashlib reference), authority flags, "
         "no stronger secret in any derived string (raw, base32 at every field), from_string under every prefix/context, NodeMaker.create_from_cap and "
